@@ -70,14 +70,6 @@ Proof. destruct k; apply String.eqb_refl. Qed.
 Lemma key_eqb_sym a b : key_eqb a b = key_eqb b a.
 Proof. destruct a, b; simpl; try reflexivity; apply String.eqb_sym. Qed.
 
-(** well-formed array of rank >= 1: the bytes are exactly itemsize * prod(shape) *)
-Definition wf_arrb (a : ndarray) : bool :=
-  match itemsize (dt a) with
-  | Some isz => (0 <? isz) && (Z.of_nat (String.length (data a)) =? isz * prodz (shape a))
-                && forallb (fun d => 0 <=? d) (shape a) && negb (match shape a with [] => true | _ => false end)
-  | None => false
-  end.
-
 Section Proofs.
   Variable c : extcodec.
   Variable sc : ndarray -> value.
